@@ -841,7 +841,7 @@ func (r *runner) serverCases(ls *lib.Livesim, assets []*lib.TLAsset, generated b
 	inDomain := []int64{0, 1, 500, 900, 999, 1000}
 	outDomain := []int64{1001, 1500, 2500}
 	modes := []string{"number", "tlnr", "tlt"}
-	perAsset := 110 * scale
+	perAsset := 200 * scale
 	for _, a := range assets {
 		ref := a.Ref()
 		N := int64(len(ref.Segs))
